@@ -244,6 +244,9 @@ Definition model_relabel_wrapper_hook_inplace : bool := false.
 Definition model_change_vartype_wrapper_hook_inplace : bool := true.
 Definition model_resolve_shares_record : bool := true.
 Definition model_copy_copies_record : bool := true.
+(* a pending relabel stores the mapping VALUE of the call (`post ++ [m]`, `HWrapRelabel i m`): later changes of the
+   caller's dict cannot reach it - the code copies the dict in both not-done branches *)
+Definition model_relabel_pending_copies_mapping : bool := true.
 
 (* ---------- histories ---------- *)
 Inductive aev :=
